@@ -134,6 +134,72 @@ func init() {
 	}, oracleNoPanic, oracleConserved)
 }
 
+// GenMixedCase: one declaration, a random sequence of operations of every kind.
+func GenMixedCase(c *Ctx, p Profile, kinds []string, nops int) *Case {
+	g := &gen{r: c.Rng, p: p}
+	cs := g.genCase()
+	g.addProgrammatic(cs)
+	real, _ := BuildReal(cs)
+	if real.dead {
+		cs.Description = describeCase(cs)
+		return cs
+	}
+	for i := 0; i < nops; i++ {
+		switch kinds[c.Rng.Intn(len(kinds))] {
+		case "parse":
+			cs.Ops = append(cs.Ops, Op{Kind: "parse", Args: g.genArgv(real)})
+		case "iniparse":
+			cs.Ops = append(cs.Ops, Op{Kind: "iniparse", Text: g.genIniText(real, iniProfile{Noise: 0.3, Fault: 0.1, Unknown: 0.05, Bytes: 0.03}), AsDefaults: g.chance(0.3)})
+		case "iniwrite":
+			cs.Ops = append(cs.Ops, Op{Kind: "iniwrite", Bits: uint(c.Rng.Intn(8)) * 2})
+		case "help":
+			cs.Ops = append(cs.Ops, Op{Kind: "help", Cols: []int{80, 40, 20, 1, 200, 33, 61}[c.Rng.Intn(7)]})
+		case "man":
+			cs.Ops = append(cs.Ops, Op{Kind: "man"})
+		case "complete":
+			cs.Ops = append(cs.Ops, Op{Kind: "complete", Args: g.genCompleteArgs(real)})
+		case "model":
+			cs.Ops = append(cs.Ops, Op{Kind: "model"})
+		}
+	}
+	cs.Description = describeCase(cs)
+	return cs
+}
+
+func runMixedCases(c *Ctx, n int, p Profile, kinds []string, nops int, after func(cr *CaseResult)) {
+	batch := 30
+	for done := 0; done < n; done += batch {
+		k := batch
+		if n-done < k {
+			k = n - done
+		}
+		cases := make([]*Case, 0, k)
+		for i := 0; i < k; i++ {
+			cases = append(cases, GenMixedCase(c, p, kinds, nops))
+		}
+		c.RunCases(cases, func(cr *CaseResult) {
+			c.classifyCase(cr)
+			if after != nil {
+				after(cr)
+			}
+		})
+		if len(c.R.Disagreements) >= c.maxKeep {
+			return
+		}
+	}
+}
+
+func init() {
+	props["DBG2"] = propRun{rule: "debug", run: func(c *Ctx) {
+		p := defaultProfile
+		kinds := strings.Split(os.Getenv("VERIF_KINDS"), ",")
+		if os.Getenv("VERIF_KINDS") == "" {
+			kinds = []string{"parse", "iniparse", "iniwrite", "help", "man", "complete"}
+		}
+		runMixedCases(c, budget(c.Tier, 300, 20000), p, kinds, 3, nil)
+	}}
+}
+
 func init() {
 	props["DBG"] = propRun{rule: "debug", run: func(c *Ctx) {
 		p := defaultProfile
